@@ -20,6 +20,7 @@ RULE = ("sequences of length 1, 9, 10, 11, 49, 50, 51, 99, 100, 101 and random u
         "histories of 1-8 palette updates (valid random, missing each key, invalid colour at first/middle/last key, "
         "non-string values, non-dict, padded foreign keys) over 1-3 live objects, rendering after every update; "
         "distinct = distinct (sequence, update history); non-trivial = history with at least one update")
+RULE += ("; added after the mutation rounds: histories of 25-45 updates; the caller editing its dictionary after acceptance; empty mappings; updates through a second handle on the same backend object; the first cases of every shard are judged again at its end")
 EXHAUSTIVE = {"quick": False, "thorough": False}
 ASSUMPTIONS = [
     "documented default palette: D,E red; K,R blue; P fuchsia; F,W,Y orange; G,H,N,Q,S,T green; A,C,I,L,M,V black",
